@@ -573,6 +573,30 @@ func checkHandleConnMarkerCI(w *World, r *Report, ci *connInfo, rule string) {
 		mb = ci.markerIf.Block().Succs[1]
 	}
 	r.Check(ci.resetCall.Block() == mb, rule, "on the marker edge the processor is reset", w.InstrPos(ci.resetCall), "")
+	// the marker decision depends on the probe bytes alone: nothing else decided after the probe read may guard the
+	// reset, and the remainder is read only when the probe differs from the marker (otherwise a marker would be
+	// consumed as frame data and every later frame shifted by its length)
+	{
+		e := newTermEnv(w)
+		var extra []string
+		for _, g := range e.guardsOf(mb) {
+			if g.If == ci.markerIf || !(ci.probe.Block() == g.If.Block() || ci.probe.Block().Dominates(g.If.Block())) {
+				continue
+			}
+			if gs := g.String(); (strings.HasPrefix(gs, "eq(") || strings.HasPrefix(gs, "ne(")) && strings.Contains(gs, "#1(io.ReadFull(") && (strings.HasSuffix(gs, ", nil)") || strings.HasPrefix(gs[3:], "nil, ")) {
+				continue // the read-error check of the probe
+			}
+			extra = append(extra, g.String())
+		}
+		r.Check(len(extra) == 0, rule, "a marker is honoured whatever else is going on (its branch depends on the probe bytes only)", w.InstrPos(ci.markerIf), "extra conditions on the marker edge: "+strings.Join(extra, " ; "))
+		sawNeg := false
+		for _, g := range e.guardsOf(ci.rest.Block()) {
+			if g.If == ci.markerIf {
+				sawNeg = true
+			}
+		}
+		r.Check(sawNeg, rule, "the remainder of a frame is read only when the probe is not the marker", w.InstrPos(ci.rest), strings.Join(guardStrings(e.guardsOf(ci.rest.Block())), " ; "))
+	}
 	// from the reset block control returns to the probe read without passing the second read / Process
 	okBack := true
 	seen := map[*ssa.BasicBlock]bool{}
